@@ -234,6 +234,11 @@ func (e *Exec) doFieldAddr(fr *Frame, x *ssa.FieldAddr, st *State, g string) {
 	ref := e.asRef(base)
 	e.safety(fr, x, g, Not(Eq(ref, "0")), "nil-deref")
 	h, hs, ft := e.fieldHeap(stT, x.Field)
+	if arr, ok := ft.Underlying().(*types.Array); ok {
+		eh, ehs := e.elemHeap(arr.Elem())
+		fr.vals[x] = Val{Addr: &Addr{Kind: "row", Heap: eh, HS: ehs, Ref: e.subRef(h, ref), Ty: ft}, Ty: x.Type()}
+		return
+	}
 	fr.vals[x] = Val{Addr: &Addr{Kind: "field", Heap: h, HS: hs, Ref: ref, Ty: ft}, Ty: x.Type()}
 }
 
